@@ -168,6 +168,8 @@ type seed struct {
 	owner  crypto.PubKey
 	signed [3][]byte
 	sig    [3][]byte
+	// keys of the space's owner (family D re-signs with them); not part of a replay case
+	signKey, masterKey crypto.PrivKey
 }
 
 func (s *seed) name() string { return s.Ctor + "/" + s.Variant }
@@ -337,6 +339,7 @@ func buildSeed(ctor, variant string) (*seed, error) {
 	vn := map[string]uint64{"a": 1, "b": 2, "c": 3}[variant]
 	var sp spacestorage.SpaceStorageCreatePayload
 	var err error
+	signKey, masterKey := sign, master
 	switch ctor {
 	case "create_v0", "create_v1":
 		cp := spacepayloads.SpaceCreatePayload{
@@ -377,6 +380,10 @@ func buildSeed(ctor, variant string) (*seed, error) {
 		// a = (k0,k1), b = (k2,k3), c = (k0,k2)
 		pair := map[string][2]int{"a": {0, 1}, "b": {2, 3}, "c": {0, 2}}[variant]
 		x, y := o2oKey(pair[0]), o2oKey(pair[1])
+		if signKey, err = crypto.GenerateSharedKey(x, y.GetPublic(), crypto.AnysyncOneToOneSpacePath); err != nil {
+			return nil, err
+		}
+		masterKey = signKey
 		if ctor == "o2o_anytype" {
 			sp, err = spacepayloads.StoragePayloadForOneToOneSpace(x, y.GetPublic())
 		} else {
@@ -388,7 +395,7 @@ func buildSeed(ctor, variant string) (*seed, error) {
 	if err != nil {
 		return nil, fmt.Errorf("%s/%s: %w", ctor, variant, err)
 	}
-	s := &seed{Ctor: ctor, Variant: variant, P: fromPayload(sp)}
+	s := &seed{Ctor: ctor, Variant: variant, P: fromPayload(sp), signKey: signKey, masterKey: masterKey}
 	if err := s.finish(); err != nil {
 		return nil, err
 	}
@@ -448,6 +455,8 @@ type evaluator struct {
 	info     map[string]map[string]int // class -> re-encoding -> count
 	sampled  sync.Map
 	nSamples atomic.Int64
+	nForged  atomic.Int64
+	nSplice  atomic.Int64
 }
 
 func (e *evaluator) informational(class, what string) {
@@ -540,7 +549,7 @@ func (e *evaluator) eval(s *seed, part, kind, desc string, m parts) {
 	default:
 		c.Count("rejected_"+cat, 1)
 	}
-	if _, seen := e.sampled.LoadOrStore(part+kind, true); !seen && oracle == oHard && err != nil && part != "hdr.raw" && e.nSamples.Add(1) <= 5 {
+	if _, seen := e.sampled.LoadOrStore(part+kind, true); !seen && oracle == oHard && err != nil && part != "hdr.raw" && e.nSamples.Add(1) <= 3 {
 		c.Sample(map[string]any{"seed": s.name(), "part": part, "kind": kind, "mutation": desc, "must_fail": cat, "verdict": cls})
 	}
 
@@ -620,6 +629,9 @@ func (e *evaluator) evalSplice(a, b *seed, mask int) {
 	default:
 		c.Count("rejected_cross-part", 1)
 		c.Count("rejected_splices", 1)
+		if mask == 2 && a.Ctor != b.Ctor && e.nSplice.Add(1) <= 1 {
+			c.Sample(map[string]any{"seed": a.name(), "part": rc.Part, "kind": "X", "mutation": desc, "must_fail": "cross-part", "verdict": cls})
+		}
 	}
 }
 
@@ -759,6 +771,7 @@ func body(c *vk.Ctx) {
 		genByteJobs(e, s, all, jobs)
 		jobs <- func() { genIdMutants(e, s, donor, all) }
 		jobs <- func() { genF1(e, s, donor, &reencOK) }
+		jobs <- func() { genForged(e, s, donor) }
 	}
 	// cross-splices
 	for _, ca := range ctorNames {
@@ -791,6 +804,8 @@ func body(c *vk.Ctx) {
 		c.Require(get("rejected_cross-part") >= 100, "vacuity: only %d mutants / splices rejected by a cross-part check", get("rejected_cross-part"))
 		c.Require(get("rejected_splices") >= 300, "vacuity: only %d splices rejected", get("rejected_splices"))
 		c.Require(reencOK.Load() >= int64(3*10*len(mutSeeds)), "vacuity: only %d wrapper re-encodings decode to the same signed bytes and signature", reencOK.Load())
+		c.Require(get("forged_controls_accepted") == int64(2*len(mutSeeds)), "vacuity: %d of %d family-D controls accepted", get("forged_controls_accepted"), 2*len(mutSeeds))
+		c.Require(get("rejected_forged_single_defect") >= int64(10*len(mutSeeds)), "vacuity: only %d single-defect forgeries rejected", get("rejected_forged_single_defect"))
 		c.Require(get("one_to_one_pairs") >= int64(nO2OKeys*(nO2OKeys-1)*2), "vacuity: only %d one-to-one pair derivations compared", get("one_to_one_pairs"))
 	}
 }
